@@ -46,6 +46,78 @@ fn nary_patterns(e: &mut Eng) {
     rekey(e, "scratch-slot");
 }
 
+/// Getter whose presence flips on every poll: P,N,P,... or N,P,N,...
+struct Flaky {
+    polls: std::cell::Cell<u32>,
+    start_present: bool,
+    value: f32,
+    time: i64,
+}
+impl Getter<f32, E> for Flaky {
+    fn get(&self) -> Output<f32, E> {
+        let k = self.polls.get();
+        self.polls.set(k + 1);
+        if (k % 2 == 0) == self.start_present {
+            Ok(Some(Datum::new(Time(self.time), self.value)))
+        } else {
+            Ok(None)
+        }
+    }
+}
+impl Updatable<E> for Flaky {
+    fn update(&mut self) -> NothingOrError<E> {
+        Ok(())
+    }
+}
+/// An input may legitimately answer differently each time it is polled. Whatever a combinator then
+/// returns, it must be built from values its inputs really delivered: with the poison in place a
+/// result outside the range of any subset sum / product / candidate (or a poisoned timestamp)
+/// betrays a read of an unwritten slot.
+fn flaky_inputs<const N: usize>(e: &mut Eng) {
+    use rrtk::streams::math::*;
+    use rrtk::streams::Latest;
+    let primes = [2.0f32, 3.0, 5.0, 7.0];
+    for code in 0..ipow(4, N) {
+        let mut kinds = [0usize; N];
+        decode(code, 4, &mut kinds);
+        e.executions += 1;
+        e.states += 1;
+        e.transitions += 6;
+        e.checks += 1;
+        if kinds.iter().any(|&k| k >= 2) {
+            e.nontrivial += 1;
+        }
+        let mk = || -> [Reference<dyn Getter<f32, E>>; N] {
+            core::array::from_fn(|i| match kinds[i] {
+                0 => dyn_getter(&rc(Scr::<f32>::new(Ok(Some(Datum::new(Time(10 + i as i64), primes[i])))))),
+                1 => dyn_getter(&rc(Scr::<f32>::new(Ok(None)))),
+                k => dyn_getter(&rc(Flaky { polls: std::cell::Cell::new(0), start_present: k == 2, value: primes[i], time: 10 + i as i64 })),
+            })
+        };
+        let r = guard(|| {
+            let s = SumStream::new(mk());
+            let p = ProductStream::new(mk());
+            let l = Latest::new(mk());
+            [obs(&s.get()), obs(&s.get()), obs(&p.get()), obs(&p.get()), obs(&l.get()), obs(&l.get())]
+        });
+        match r {
+            Err(m) => e.violation("scratch-slot:flaky-input:panic", N, || format!("arity {} input kinds {:?} (0 present, 1 absent, 2 flips P->N, 3 flips N->P): {}", N, kinds, m)),
+            Ok(os) => {
+                e.outcome(h64(&os));
+                for (j, o) in os.iter().enumerate() {
+                    let sane = !o.is_err() && (o.is_none() || (o.f(0).is_finite() && o.f(0).abs() <= 1000.0 && o.f(0) >= 2.0 && (10..10 + N as i64).contains(&o.time)));
+                    if !sane {
+                        e.violation("scratch-slot:flaky-input:garbage", N, || {
+                            format!("arity {} input kinds {:?} (0 present, 1 absent, 2 flips P->N per poll, 3 flips N->P): read #{} returned {} which no combination of delivered values explains", N, kinds, j, o.show())
+                        });
+                        break;
+                    }
+                }
+            }
+        }
+    }
+}
+
 type Term<'a> = RefCell<Terminal<'a, E>>;
 
 fn axle_case<const N: usize>(e: &mut Eng) {
@@ -127,6 +199,11 @@ pub fn run(_ctx: &Ctx) -> Vec<Eng> {
         "sum over N=1..8 of 2^N x (1 + N) cases",
     );
     nary_patterns(&mut e1);
+    flaky_inputs::<1>(&mut e1);
+    flaky_inputs::<2>(&mut e1);
+    flaky_inputs::<3>(&mut e1);
+    flaky_inputs::<4>(&mut e1);
+    e1.rule.push_str("; plus, for arities 1..4, every assignment of {present, absent, presence flips P->N on every poll, flips N->P} to the inputs: the result must be explainable by delivered values (no poison, no panic)");
     e1.notes.push(format!("poison hook active in this build: {}", hook));
     let mut e2 = Eng::new(
         "c16-terminal-read-scratch",
